@@ -4,7 +4,7 @@
    no signature, ...).  It is extracted and evaluated on every tree the parser hands over; the check reports how many
    trees are in scope.  A kind whose converter is not yet proved has `knode_ok = false`. *)
 From TV Require Import Tree Ast Doc Sig SigTree Comment.
-From TV.gen Require Import Kind.
+From TV.gen Require Import Kind Tables.
 
 (* kinds of inner nodes; every other kind is a token (a leaf) *)
 Definition inner_kind (k : kind) : bool :=
@@ -63,6 +63,63 @@ Fixpoint lwalkb (accp : tree -> bool) (cs : list tree) (pend : bool) : bool :=
 
 Definition tsigl (cs : list tree) : str := concat (map tsig cs).
 
+(* Args: the shapes func_call.rs takes apart *)
+Fixpoint take_until_rparen_t (l : list tree) : list tree :=
+  match l with
+  | b :: r => if kind_eqb (kind_of b) KRightParen then [] else b :: take_until_rparen_t r
+  | [] => []
+  end.
+Fixpoint skip_until_t (k : kind) (l : list tree) : list tree :=
+  match l with
+  | b :: r => if kind_eqb (kind_of b) k then l else skip_until_t k r
+  | [] => []
+  end.
+Definition has_paren_t (cs : list tree) : bool :=
+  match cs with b :: _ => kind_eqb (kind_of b) KLeftParen | [] => false end.
+Definition args_main (cs : list tree) : list tree := if has_paren_t cs then take_until_rparen_t cs else [].
+Definition args_extra (cs : list tree) : list tree :=
+  filter (fun b => kind_eqb (kind_of b) KContentBlock) (skip_until_t (if has_paren_t cs then KRightParen else KContentBlock) cs).
+Fixpoint position_t (p : tree -> bool) (l : list tree) (i : nat) : option nat :=
+  match l with
+  | [] => None
+  | x :: r => if p x then Some i else position_t p r (S i)
+  end.
+Definition math_slice {A} (kof : A -> kind) (cs : list A) : list A :=
+  let len := length cs in
+  let i := match (fix pos (l : list A) (i : nat) := match l with [] => None | x :: r =>
+                    if negb (match kof x with KLeftParen | KSpace => true | _ => false end) then Some i else pos r (S i) end) cs 0%nat with
+           | Some i => i | None => 0%nat end in
+  let j := match (fix pos (l : list A) (i : nat) := match l with [] => None | x :: r =>
+                    if negb (match kof x with KRightParen | KSpace => true | _ => false end) then Some i else pos r (S i) end) (rev cs) 0%nat with
+           | Some r => (len - 1 - r)%nat | None => (len - 1)%nat end in
+  if Nat.ltb j i then [] else firstn (j + 1 - i) (skipn i cs).
+
+Definition paren_args_only (cs : list tree) : bool :=
+  has_paren_t cs && match args_extra cs with [] => true | _ => false end.
+Definition args_ok (cs : list tree) : bool :=
+  str_eqb (tsigl cs) (tsigl (args_main cs) ++ tsigl (args_extra cs)) && lwalkb is_arg (args_main cs) false.
+Definition margs_ok (cs : list tree) : bool :=
+  let sl := math_slice kind_of cs in
+  str_eqb (tsigl cs) (tsigl sl) &&
+  forallb (fun c => is_generic c || kind_eqb (kind_of c) KComma || kind_eqb (kind_of c) KSemicolon || is_arg c || sig_empty c) sl.
+
+(* math.rs convert_math_delimited: the children between the delimiters, minus one blank at each end *)
+Definition split_last_t {A} (l : list A) : option (list A * A) :=
+  match rev l with x :: r => Some (rev r, x) | [] => None end.
+Definition delimited_inner {A} (kof : A -> kind) (cs : list A) : list A :=
+  match cs with
+  | [] | [_] => []
+  | _ :: rest =>
+      let inner0 := removelast rest in
+      let inner1 := match inner0 with
+                    | first :: r => if kind_eqb (kof first) KSpace then r else inner0
+                    | [] => inner0 end in
+      match split_last_t inner1 with
+      | Some (r, last) => if kind_eqb (kof last) KSpace then r else inner1
+      | None => inner1
+      end
+  end.
+
 Section NodeOk.
   (* per kind: the children a converter does not hand on carry no signature; see SigConv.v for the use of each clause *)
   Definition all_kept (kept : tree -> bool) (cs : list tree) : bool :=
@@ -77,7 +134,9 @@ Section NodeOk.
     | KContextual | KConditional | KWhileLoop | KFuncReturn | KModuleInclude => all_kept is_expr cs
     | KLetBinding => all_kept (fun c => kind_eqb (kind_of c) KEq || is_pattern c) cs
     | KDestructAssignment => all_kept (fun c => kind_eqb (kind_of c) KEq || is_pattern c) cs
-    | KSetRule => all_kept (fun c => is_expr c || kind_eqb (kind_of c) KArgs) cs
+    | KSetRule =>
+        all_kept (fun c => is_expr c || kind_eqb (kind_of c) KArgs) cs &&
+        forallb (fun c => negb (kind_eqb (kind_of c) KArgs) || paren_args_only (children c)) cs
     | KShowRule => all_kept is_expr cs
     | KHeading => all_kept (fun c => kind_eqb (kind_of c) KHeadingMarker || kind_eqb (kind_of c) KMarkup) cs
     | KImportItemPath => all_kept (fun c => kind_eqb (kind_of c) KDot || kind_eqb (kind_of c) KIdent) cs
@@ -96,6 +155,29 @@ Section NodeOk.
                 (sig ([64] ++ ref_target (Inner KRef cs no_attrs)) ++
                  match find (fun c => kind_eqb (kind_of c) KContentBlock) (rev cs) with Some m => tsig m | None => [] end)
     | KMathPrimes => str_eqb (tsigl cs) (sig (repeat 39 (N.to_nat (math_primes_count (Inner KMathPrimes cs no_attrs)))))
+    | KMath => forallb (fun c => is_expr c || negb (inner_kind (kind_of c))) cs
+    | KEquation => lwalkb (fun c => kind_eqb (kind_of c) KMath && negb (match children c with [] => true | _ => false end)) cs false
+    | KMathAttach | KMathRoot | KMathFrac => forallb (fun c => is_generic c || is_expr c || negb (inner_kind (kind_of c))) cs
+    | KMathDelimited =>
+        match find is_expr cs, find is_expr (rev cs) with
+        | Some o, Some cl =>
+            let inner := delimited_inner kind_of cs in
+            str_eqb (tsigl cs) (tsig o ++ tsigl inner ++ tsig cl) &&
+            all_kept (fun c => kind_eqb (kind_of c) KMath) inner
+        | _, _ => false
+        end
+    | KCode => true
+    | KCodeBlock => lwalkb is_expr (flat_map (fun c => if kind_eqb (kind_of c) KCode then children c else [c]) cs) false
+    | KArgs => args_ok cs && margs_ok cs
+    | KFuncCall =>
+        match find is_expr cs with
+        | Some cal =>
+            negb (kind_eqb (kind_of cal) KFieldAccess) &&
+            negb (match (if kind_eqb (kind_of cal) KIdent then Some (text_of cal) else None) with
+                  | Some n => existsb (str_eqb n) TABLE_FUNCS | None => false end) &&
+            str_eqb (tsigl cs) (tsig cal ++ match find (fun c => kind_eqb (kind_of c) KArgs) (rev cs) with Some a => tsig a | None => [] end)
+        | None => false
+        end
     | KArray => lwalkb is_array_item cs false
     | KDict => lwalkb is_dict_item cs false
     | KDestructuring => lwalkb is_destructuring_item cs false
